@@ -33,17 +33,21 @@ for _pid, _txt in {
            "after completion and - at quiescence - requests never answered although every attempt was answered or dropped",
     "C02": "replies carry the token and node of the attempt they answer, on the submitting client's stream; backend stream ids are never reused while in use; "
            "many clients with equal stream ids, delayed and reordered responses; a volume stage that uses every backend stream id of a connection and "
-           "answers a heartbeat after the proxy gave up on it; pipelined and retried writes under a consistency override; a second frame on a stream is "
-           "a violation too",
+           "answers a heartbeat after the proxy gave up on it; pipelined and retried writes under a consistency override; short-lived clients that hang up with responses outstanding; "
+           "bursts of pipelined requests which the proxy answers itself (request class LOCAL of the specification: exactly its own rows, never a backend); "
+           "a second frame on a stream is a violation too",
     "C04": "NonIdemNotReexecuted on the spec for all outcome/drop sequences; in traces every backend execution of a request that is not positively idempotent "
            "must follow only outcomes that guarantee the previous attempt was not applied; statements in many spellings (function names in any case, "
-           "qualified, inside collections / tuples / nested calls), EXECUTE and BATCH with prepared children in every position",
+           "qualified, inside collections / tuples / nested calls), EXECUTE and BATCH with prepared children in every position, graph requests as traversal "
+           "text, as CQL text and as EXECUTE of an idempotent prepared statement; connections closed by the proxy itself with requests outstanding",
     "C05": "the retry decision table (Decide) and the traversal rules are checked by TLC (EachHostOnce, AttemptsBounded, SucceedsIfSomeHostOk, NoHostsIffAllTried, "
            "ReturnsFirstFinal, termination under fairness); every terminal attempt history is replayed and the real attempt sequence/reply must be the prescribed one",
     "C08": "the prepare path of RequestObs (UNPREPARED -> re-prepare on the same connection -> re-execute on the same host; failed re-prepare -> next "
            "host; NeverUnpreparedWhileCached) checked by TLC; scenario families against the real proxy: hosts that never saw the PREPARE, scripted "
            "UNPREPARED with re-prepare ok/error/connection loss, node restarts, a node joining after start-up, lz4 and snappy sessions, batches with "
-           "several prepared children (one re-prepare round per child, re-executed on the re-prepared host)",
+           "several prepared children (one re-prepare round per child, re-executed on the re-prepared host), the same statement prepared through sessions "
+           "of different compression / protocol version, and a re-prepare storm (nodes forget statements after two executions, 64 concurrent requests: "
+           "a re-PREPARE must travel on the stream registered for it, a request must not hang after its re-preparation)",
 }.items():
     CHECKS[_pid] = dict(category="model_checking", technique=REQ_TECH, text=_txt, note=REQ_NOTE, design="§6 " + _pid)
 
@@ -107,7 +111,9 @@ CHECKS["C07"] = dict(
          "clients; in recorded traces every data request must arrive at the backend on a connection whose keyspace (as the backend folds it), protocol "
          "version and compression are the submitting client's at submission time, a valid USE is answered SET_KEYSPACE with the folded name, an invalid "
          "one with an error carrying the backend's message and no change of keyspace; histories include quoted / mixed-case / non-existent keyspaces, "
-         "v3/v4, none/lz4/snappy and all clients switching to the same new keyspace at the same instant",
+         "v3/v4, none/lz4/snappy and all clients switching to the same new keyspace at the same instant; every node restarting after the USEs; a node "
+         "joining when the clients' lz4 / snappy sessions already exist (its requests must travel on connections of the client's own session: "
+         "TraceRequestObs)",
     note="Each client is sequential (a USE is answered before its next frame); the failed-USE check recognises the backend's message text, not its "
          "error code (the proxy documents a server error carrying the message); trusts the fake backend's USE semantics.",
     design="§6 C07")
@@ -120,7 +126,8 @@ CHECKS["C13"] = dict(
          "below v3 gets exactly one protocol error naming the version in that version, is not forwarded and leaves the connection and its state untouched "
          "(unknown version bytes: that error or a close, never forwarded); an unsupported compression gets only an error; a supported one (any letter case) "
          "switches this connection only, both directions - as invariants of ClientConn.tla over all <=4-frame sequences on 2 connections for MaxVersion "
-         "3,4,5,DSEv1,DSEv2, and every exported sequence plus the full single-frame table replayed against the real proxy over raw sockets",
+         "3,4,5,DSEv1,DSEv2, and every exported sequence plus the full single-frame table replayed against the real proxy over raw sockets, every second "
+         "deterministic multi-frame sequence in ONE write per connection (STARTUP and the frames behind it back to back)",
     note="Observable-level spec. Sequence alphabet of 6 (quick) / 8-12 (thorough) frame classes, length 4, 2 connections; full alphabet only as single "
          "frames in 4 connection states; late extra frames looked for during a 25 ms quiet window; 'forwarded' observed by hook pending.store plus the fake "
          "backend's token log; response/undefined opcodes, direction bit, hostile bodies on accepted versions, PREPARE/EXECUTE/BATCH/AUTH_RESPONSE, snappy "
@@ -212,7 +219,9 @@ CHECKS["C17"] = dict(
          "AUTH_RESPONSE contents) and hostile backend reply (unknown stream, wrong opcode, short error, garbage, unsolicited event, truncated result, "
          "bogus UNPREPARED, compression flag) is sent - every listed variant at least once, in sequences covering all classes (thorough: all ordered "
          "pairs) - to the real binary under several --max-protocol-version settings; the process stays alive, the offender sees an allowed outcome, and a "
-         "canary client gets a locally answered and a forwarded query right after every event",
+         "canary client gets a locally answered and a forwarded query right after every event; HostileTLS.tla: the binary with a TLS listener, "
+         "offenders that stall or misbehave inside the TLS handshake and keep their sockets open - the client connected before and a new client must be served "
+         "after every step",
     note="abstract classes with listed variants and seeded contents, not coverage-guided fuzzing (DESIGN §7); declared frame lengths up to 15 MiB, declared field lengths up to 2^31-1; canary retries "
          "for 8 s because a backend connection torn down by garbage returns only after the reconnect delay.",
     design="§6 C17, §7")
